@@ -173,5 +173,12 @@ def run(seed=0):
     except oracle.Undecided:
         pass
     out.append(("oracle: entailed / refuted / undecided answers", bool(ok)))
+    # stop-gradient copies (tensortrax Tensor.x): same value, zero derivative, product rule sees only the live factor
+    pf = x * x * ring.fn("exp", y) + ring.nthroot(1 + z * z, 2)
+    fz = pf.x
+    okF = ring.iszero(ring.unfreeze(fz) - pf) and not ring.D(fz, x).t and not ring.D(fz, z).t
+    okF = okF and ring.iszero(ring.unfreeze(ring.D(fz * x * y, x)) - pf * y) and ring.iszero(ring.unfreeze(ring.D(fz.x * pf, y)) - pf * ring.D(pf, y))
+    okF = okF and abs(float(to_sympy(ring.unfreeze(fz)).subs({sx: 0.7, sy: 0.3, sz: 1.1})) - float(to_sympy(pf).subs({sx: 0.7, sy: 0.3, sz: 1.1}))) < 1e-12
+    out.append(("stop-gradient copies: value kept, derivative cut, product rule", bool(okF)))
     ring.reset()
     return out
